@@ -50,12 +50,17 @@ type Cfg struct {
 	NoNest  bool `json:"disable_nested"`
 	SkipDef bool `json:"skip_default_tx"`
 	Report  bool `json:"dialector_reports"` // save-point errors are returned by the dialector (as the MySQL/Postgres dialectors do); false = stock SQLite dialector, which drops them
+	// how the three flags are set: "" in gorm.Config at Open | "session": on a default-config handle by
+	// db.Session(&Session{PrepareStmt, DisableNestedTransaction, SkipDefaultTransaction}) | "both"
+	Via string `json:"via,omitempty"`
 }
 
 type Input struct {
 	Top   string   `json:"top"` // block: db.Transaction(body) ; manual: tx := db.Begin(); body; tx.Commit()/tx.Rollback()
 	Body  Blk      `json:"body"`
 	Extra []string `json:"extra,omitempty"` // manual only: further commit/rollback calls after the end
+	Opts  bool     `json:"opts,omitempty"`  // Transaction(fc, &sql.TxOptions{}) / Begin(&sql.TxOptions{})
+	Stray []string `json:"stray,omitempty"` // before the program: commit/rollback called on a handle that is NOT in a transaction (a session copy of the pool handle)
 	Cfg   Cfg      `json:"cfg"`
 	Fault int      `json:"fault"` // index of the driver operation that fails (-1: none)
 	Phase string   `json:"phase"` // exec | prepare (fail the first driver call of the operation, i.e. its prepare if it has one)
@@ -94,6 +99,7 @@ type Observed struct {
 	Exit    Cls     `json:"exit"`
 	Ret     Cls     `json:"ret"`
 	Extra   []Cls   `json:"extra,omitempty"`
+	Stray   []Cls   `json:"stray,omitempty"`
 	Table   []int64 `json:"table"`
 	InUse   int64   `json:"in_use"`
 	OpenTx  int64   `json:"open_tx"`
@@ -150,18 +156,24 @@ func getEnv(c Cfg) *env {
 		return e
 	}
 	envGen++
-	name := fmt.Sprintf("db_p%v_n%v_s%v_r%v_%d.sqlite", c.Prep, c.NoNest, c.SkipDef, c.Report, envGen)
+	name := fmt.Sprintf("db_p%v_n%v_s%v_r%v_%s_%d.sqlite", c.Prep, c.NoNest, c.SkipDef, c.Report, c.Via, envGen)
 	path := filepath.Join(workDir, name)
 	os.Remove(path)
-	dsn := "file:" + path + "?_busy_timeout=300"
+	dsn := "file:" + path + "?_busy_timeout=300&_synchronous=0"
 	sqlDB, rec := recdrv.Open(dsn)
 	var dial gorm.Dialector = sqlite.Dialector{Conn: sqlDB}
 	if c.Report {
 		dial = reporting{sqlite.Dialector{Conn: sqlDB}}
 	}
-	db, err := gorm.Open(dial, &gorm.Config{Logger: logger.Discard, PrepareStmt: c.Prep,
-		DisableNestedTransaction: c.NoNest, SkipDefaultTransaction: c.SkipDef})
+	gc := &gorm.Config{Logger: logger.Discard}
+	if c.Via != "session" {
+		gc.PrepareStmt, gc.DisableNestedTransaction, gc.SkipDefaultTransaction = c.Prep, c.NoNest, c.SkipDef
+	}
+	db, err := gorm.Open(dial, gc)
 	lib.Must(err)
+	if c.Via != "" {
+		db = db.Session(&gorm.Session{PrepareStmt: c.Prep, DisableNestedTransaction: c.NoNest, SkipDefaultTransaction: c.SkipDef})
+	}
 	lib.Must(db.AutoMigrate(&Marker{}))
 	// the statement texts the programs use have also been run OUTSIDE any transaction before
 	// (with PrepareStmt the statement cache then holds pool-level entries for them)
@@ -220,6 +232,8 @@ func derive(h *gorm.DB, via string) *gorm.DB {
 	return h
 }
 
+var freshText int
+
 const rawInsert = "INSERT INTO markers (m) VALUES (?)"
 
 func spName(m int64) string { return fmt.Sprintf("user_sp_%d", m) }
@@ -236,6 +250,9 @@ func (r *runner) body(h *gorm.DB, b *Blk, log *[]Obs) error {
 			switch it.Via {
 			case "exec":
 				res = h.Exec(rawInsert, it.M)
+			case "exec_new": // a statement text never seen before (nothing cached for it)
+				freshText++
+				res = h.Exec(fmt.Sprintf("%s /* c04 text %d */", rawInsert, freshText), it.M)
 			case "kept":
 				if kept == nil {
 					kept = h.Model(&Marker{})
@@ -365,7 +382,7 @@ func run(in Input) Observed {
 		k := opKind(ev)
 		if ev.Kind == "prepare" {
 			if !pendingPrepare && len(ops) == in.Fault && in.Phase == "prepare" {
-				ops = append(ops, Op{K: "stmt", F: true})
+				ops = append(ops, Op{K: k, F: true}) // a SAVEPOINT can be prepared too (PrepareStmt set twice)
 				return errFault
 			}
 			pendingPrepare = true
@@ -393,13 +410,25 @@ func run(in Input) Observed {
 				}
 			}
 		}()
+		for _, x := range in.Stray { // Commit / Rollback on a handle that is not in a transaction
+			h := e.db.Session(&gorm.Session{})
+			if x == "commit" {
+				obs.Stray = append(obs.Stray, classify(h.Commit().Error))
+			} else {
+				obs.Stray = append(obs.Stray, classify(h.Rollback().Error))
+			}
+		}
+		var opts []*sql.TxOptions
+		if in.Opts {
+			opts = []*sql.TxOptions{{}}
+		}
 		if in.Top == "block" {
-			err := e.db.Transaction(func(tx *gorm.DB) error { return r.fc(tx, &in.Body, &top) })
+			err := e.db.Transaction(func(tx *gorm.DB) error { return r.fc(tx, &in.Body, &top) }, opts...)
 			obs.Ret = classify(err)
 			return
 		}
 		// manual: the documented Begin / defer-rollback-on-panic / Rollback-on-error / Commit pattern
-		tx := e.db.Begin()
+		tx := e.db.Begin(opts...)
 		if tx.Error != nil {
 			// the idiomatic cleanup (defer tx.Rollback(), or Commit) on the handle of a failed Begin
 			obs.Ret = classify(tx.Error)
@@ -544,12 +573,13 @@ func term(in Input, o Observed) string {
 		fault = lib.App("Some", lib.Nat(in.Fault))
 	}
 	extra := lib.ListOf(in.Extra, func(s string) string { return lib.Bool(s == "commit") })
+	stray := lib.ListOf(in.Stray, func(s string) string { return lib.Bool(s == "commit") })
 	return lib.App("mk_case",
-		lib.Bool(in.Top == "manual"), progTerm(&in.Body), extra,
+		lib.Bool(in.Top == "manual"), progTerm(&in.Body), extra, stray,
 		lib.App("mk_cfg", lib.Bool(in.Cfg.Prep), lib.Bool(in.Cfg.NoNest), lib.Bool(in.Cfg.SkipDef), lib.Bool(in.Cfg.Report)),
 		fault,
 		lib.App("OC", lib.Bool(o.Entered), lib.ListOf(o.Log, obsTerm), clsTerm(o.Exit), clsTerm(o.Ret)),
-		lib.ListOf(o.Extra, clsTerm),
+		lib.ListOf(o.Extra, clsTerm), lib.ListOf(o.Stray, clsTerm),
 		lib.ZList(o.Table), lib.Z(o.InUse), lib.Z(o.OpenTx), lib.ListOf(o.Ops, opTerm))
 }
 
@@ -566,7 +596,7 @@ func (g *gen) write() Item {
 	it := Item{K: "write", M: g.marker, Chk: g.r.Chance(3, 4)}
 	switch c := g.r.Intn(8); {
 	case c < 2:
-		it.Via = "exec"
+		it.Via = lib.Pick(g.r, []string{"exec", "exec", "exec_new"})
 	case c < 4:
 		// kept writes return their error: a failed call leaves its error in the kept handle
 		// (gorm's documented behaviour of a reused chain), which the programs do not go on using
@@ -696,7 +726,7 @@ func shapeBlk(b *Blk, sb *strings.Builder) {
 
 func shape(in Input, o Observed) string {
 	var sb strings.Builder
-	fmt.Fprintf(&sb, "%s|p%v n%v s%v r%v|", in.Top, in.Cfg.Prep, in.Cfg.NoNest, in.Cfg.SkipDef, in.Cfg.Report)
+	fmt.Fprintf(&sb, "%s|p%v n%v s%v r%v %s o%v %v|", in.Top, in.Cfg.Prep, in.Cfg.NoNest, in.Cfg.SkipDef, in.Cfg.Report, in.Cfg.Via, in.Opts, in.Stray)
 	shapeBlk(&in.Body, &sb)
 	fk := "none"
 	if in.Fault >= 0 && in.Fault < len(o.Ops) {
@@ -835,6 +865,7 @@ func main() {
 		out.Count("fault_kind", fk)
 		out.Count("result", o.Ret.K)
 		out.Count("config", fmt.Sprintf("prep=%v nonest=%v skipdef=%v report=%v", in.Cfg.Prep, in.Cfg.NoNest, in.Cfg.SkipDef, in.Cfg.Report))
+		out.Count("config_via", "via="+in.Cfg.Via)
 		out.Count("durable", fmt.Sprint(len(o.Table)))
 		out.Count("driver_ops", fmt.Sprint(len(o.Ops)))
 		for _, n := range o.Notes {
@@ -899,6 +930,7 @@ func main() {
 				if (ti+ci)%8 == 4 {
 					c.Report = false
 				}
+				c.Via = []string{"", "session", "both"}[(ti/3+ci)%3]
 				if (ti+ci)%4 != 0 && ti >= 12 { // every tree under 2 configurations, the smallest under all
 					continue
 				}
@@ -937,6 +969,13 @@ func main() {
 		}
 		in.Cfg = cfgs[r.Intn(8)]
 		in.Cfg.Report = r.Chance(3, 4)
+		in.Cfg.Via = lib.Pick(r, []string{"", "", "session", "both"})
+		in.Opts = r.Chance(1, 4)
+		if r.Chance(1, 6) {
+			for k := r.Range(1, 2); k > 0; k-- {
+				in.Stray = append(in.Stray, lib.Pick(r, []string{"commit", "rollback"}))
+			}
+		}
 		maxDepth := lib.Pick(r, []int{1, 2, 2, 3, 3, 4})
 		in.Body = g.blk(0, maxDepth, edge)
 		if in.Top == "manual" && (edge || r.Bool()) { // e.g. the deferred tx.Rollback() of the idiom
